@@ -398,10 +398,35 @@ def run(rep, tier, seed, replay=None):
             r.update(extra)
         rep.violation(text, r, no_input=no_input)
 
+    variant = [0, 0]       # fx_neg, fx_f32 of ScalImpl.v: which variant of the code the tree implements (probed below)
+
+    def run_model(lines, powtab, var):
+        mtext = "V %d %d\n" % tuple(var) + "".join("T %d %s\n" % kv for kv in sorted(powtab.items())) + "\n".join(lines) + "\n"
+        rc2, mout, merr = vlib.sh([drv], input=mtext.encode(), timeout=1800)
+        if rc2 != 0:
+            raise RuntimeError("model driver failed: " + merr[-2000:])
+        return mout.split("\n")
+
+    def probe_variant(powtab):
+        """ScalImpl.v mirrors two variants of the arithmetic (see its header): pick, per flag, the one that reproduces the
+        library on a few probe lines; the full correspondence run below then has to agree everywhere."""
+        pn = ["D -5 0 15 2067 41e8699e58000000", "R -5 0 15 2067 32766", "R -3 -65536 17 14001 7", "X -5 -16384 15 14192 c1d86a0000000000",
+              "R -11 0 28 1001 99999", "D -1 -1000 8 1001 c0c3880000000000"]
+        pf = ["R 8 -100000 23 15037 8388606", "R 12 -8388607 3 1001 3", "R -10 -8388606 23 1001 255", "R 5 -8388607 23 31001 65536",
+              "R 11 5 20 1001 77777", "R -2 3 16 1001 4097"]
+        rc, cn, _ = vlib.run_cases(exe, "\n".join(pn + pf) + "\n")
+        for flag, lo, hi in ((0, 0, len(pn)), (1, len(pn), len(pn) + len(pf))):
+            for val in (0, 1):
+                var = [0, 0]; var[flag] = val
+                mo = run_model((pn + pf)[lo:hi], powtab, var)
+                if all(c.split()[:4] == m.split()[:4] for c, m in zip(cn[lo:hi], mo)):
+                    variant[flag] = val
+                    break
+
     def run_both(lines, powtab):
         text = "\n".join(lines) + "\n"
         rc, cout, cerr = vlib.run_cases(exe, text, timeout=1800)
-        mtext = "".join("T %d %s\n" % kv for kv in sorted(powtab.items())) + text
+        mtext = "V %d %d\n" % tuple(variant) + "".join("T %d %s\n" % kv for kv in sorted(powtab.items())) + text
         rc2, mout, merr = vlib.sh([drv], input=mtext.encode(), timeout=1800)
         if rc2 != 0:
             raise RuntimeError("model driver failed: " + merr[-2000:])
@@ -419,6 +444,7 @@ def run(rep, tier, seed, replay=None):
     if replay:
         lines = replay.get("lines", [])
         powtab = {int(k): v for k, v in replay.get("powtab", {}).items()}
+        probe_variant(powtab)
         cout, cerr, mout = run_both(lines, powtab)
         for ln, c, m in zip(lines, cout, mout):
             rep.count(ln)
@@ -470,6 +496,9 @@ def run(rep, tier, seed, replay=None):
             dist["pow10_not_correctly_rounded_by_libm"] += 1
         else:
             dist["pow10_correctly_rounded"] += 1
+    probe_variant(powtab)
+    dist["model_variant_fx_neg"] = variant[0]
+    dist["model_variant_fx_f32"] = variant[1]
     cout, cerr, mout = run_both(lines, powtab)
     if died(cout, cerr, lines, len(lines)):
         finish(rep, dist, proved)
